@@ -54,7 +54,8 @@ def pixel_size(roi, recip_sampling):
     return (1.0 / (roi[0] * recip_sampling[0]), 1.0 / (roi[1] * recip_sampling[1]))
 
 
-def probe_fourier_modes(roi, recip_sampling, energy, semiangle_mrad, aberrations, n_modes, weights, total_intensity):
+def probe_fourier_modes(roi, recip_sampling, energy, semiangle_mrad, aberrations, n_modes, weights, total_intensity,
+                        keep_nyquist=False):
     """Fourier coefficients Psi[m, kr, kc] (FFT order) of n_modes mutually orthogonal modes.
     aberrations: dict C10 (A, = -defocus), C30 (A), C12 (A), phi12 (rad).
     mode 0 = aperture * exp(-i chi); mode 1, 2 = the same times k_r, k_c (odd, orthogonal by the
@@ -68,10 +69,13 @@ def probe_fourier_modes(roi, recip_sampling, energy, semiangle_mrad, aberrations
     phi = np.arctan2(kc, kr) + 0.0 * alpha
     cutoff = semiangle_mrad * 1e-3
     aperture = (alpha <= cutoff).astype(np.float64)
-    # nothing on the Nyquist row / column (ambiguous sign of the frequency there)
-    if n % 2 == 0:
+    # nothing on the Nyquist row / column (ambiguous sign of the frequency there) - unless the case is about an
+    # aperture that reaches the detector edge (keep_nyquist): the probe then IS the trigonometric polynomial
+    # with the frequencies of centred_freq_index (= numpy's fftfreq: the Nyquist term has k = -n/2), and
+    # probe_real_space below evaluates exactly that polynomial at the shifted sample points
+    if n % 2 == 0 and not keep_nyquist:
         aperture[n // 2, :] = 0.0
-    if m % 2 == 0:
+    if m % 2 == 0 and not keep_nyquist:
         aperture[:, m // 2] = 0.0
     chi = (2.0 * np.pi / lam) * (
         0.5 * aberrations.get("C10", 0.0) * alpha ** 2
